@@ -174,7 +174,7 @@ PROPS = {
         "corr": "policy.PolicyVerifier.VerifyRefFull / VerifyRef / VerifyRefFromEntry vs verify_full / verify_latest / verify_from (World.v); "
                 "VerifyRef on histories with code-review approval attestations vs Reviews.verify_latest_r, and accepted => justified by approvals "
                 "that are exactly about the change (Reviews.latest_justified)",
-        "rule": 'one third of the cases: a thr 1-3 branch rule over 1-4 persons who registered identities for one or two code-review apps (trusted or not), an optional reference authorization, one approval attestation per app listing 1-3 identities (registered, unregistered, claimed by several persons), two thirds of them well formed, the others naming another tree / prior state / ref, stored under another change, signed by a developer, by the other app or by nobody; the push signed by a person, a stranger or nobody; verified latest-only. The rest: profile C09 (every approval may be misbound: other tree, other ref, other prior state, other path). generated worlds in an in-memory Storer with real ed25519 signatures: an initial policy (root key(s), primary rule file with 2-4 developers, 1-3 rules incl. thresholds 1-3, optionally one delegated rule file, optionally global rules), then 4-21 events from: pushes to main/feature/other signed by authorised / unauthorised / admin / no key (12% force pushes, 10% tree-reusing commits), approvals (reference authorizations signed by subsets of developers, some for other changes or stored at other paths) followed by the push, policy updates (valid evolutions: rule changes, root rotation, threshold raises, global rules added/dropped; one third forbidden ones: unsigned / wrongly signed root, forged or rolled-back rule files, dropped or dangling delegated files, self-signed replacement root), skip annotations (mostly on violating pushes), fix pushes (tree-same as the last good state), staging and propagation entries. Each world is verified in full for main and feature, latest-only for main and from a random earlier entry. non-trivial = >=2 policy states or a rejected verification',
+        "rule": 'one third of the cases: a thr 1-3 branch rule over 1-4 persons who registered identities for one or two code-review apps (trusted or not), an optional reference authorization, one approval attestation per app listing 1-3 identities (registered, unregistered, claimed by several persons - though never by two persons of the rule under test, where the pick of the implementation follows the map order of Go), two thirds of them well formed, the others naming another tree / prior state / ref, stored under another change, signed by a developer, by the other app or by nobody; the push signed by a person, a stranger or nobody; verified latest-only. The rest: profile C09 (every approval may be misbound: other tree, other ref, other prior state, other path). generated worlds in an in-memory Storer with real ed25519 signatures: an initial policy (root key(s), primary rule file with 2-4 developers, 1-3 rules incl. thresholds 1-3, optionally one delegated rule file, optionally global rules), then 4-21 events from: pushes to main/feature/other signed by authorised / unauthorised / admin / no key (12% force pushes, 10% tree-reusing commits), approvals (reference authorizations signed by subsets of developers, some for other changes or stored at other paths) followed by the push, policy updates (valid evolutions: rule changes, root rotation, threshold raises, global rules added/dropped; one third forbidden ones: unsigned / wrongly signed root, forged or rolled-back rule files, dropped or dangling delegated files, self-signed replacement root), skip annotations (mostly on violating pushes), fix pushes (tree-same as the last good state), staging and propagation entries. Each world is verified in full for main and feature, latest-only for main and from a random earlier entry. non-trivial = >=2 policy states or a rejected verification',
         "theorems": ['C09_bound_to_exact_change', 'C09_misplaced_statement_rejected', 'C09_counted_once', 'C09_review_bound_to_exact_change', 'C09_review_credit_justified', 'C09_review_credit_once', 'C09_accepted_with_reviews'],
         "trusted": ["symbolic cryptography; developers' keys are disjoint from root/primary-rule-file keys and from each other in generated worlds (shared keys make the Go map iteration order observable)", 'the harness world builder writes policy and attestation commits directly (bypassing Apply, which would refuse the forbidden states) and the in-memory Storer', 'not modelled: tags, file rules (C10), dismissed approvers, controller repositories, the persistent cache (C08), hooks; code-review approvals are modelled for latest-only verification under policies without global rules (Reviews.v)', 'error kinds are compared for correspondence; the property is decided on accept/reject and the tip'],
         "assumptions": [],
